@@ -37,6 +37,7 @@ TYPE_DOPS: Dict[str, Dict[str, Any]] = {
     "dtclc": {"kind": "dtcdop", "name": "dtclc", "dct": {"k": "STD", "base": "A_UINT32", "bits": 24},
               "dtcs": [{"name": "e1", "code": 0x12AB}, {"name": "e2", "code": 0x5C78}, {"name": "e3", "code": 0x9ABC}]},
     "f64big": {"name": "f64big", "dct": {"k": "STD", "base": "A_FLOAT64", "bits": 64}},
+    "u64": {"name": "u64", "dct": {"k": "STD", "base": "A_UINT32", "bits": 64}},
 }
 OWN_DID_FLAG = 0x0080
 OWN_PAD = 0xEE  # constant byte in front of the payload of a variant's own re-definition of a service ...
